@@ -64,13 +64,9 @@ mod verif_c15 {
         let mut b2 = [0u8; 64];
         let w2 = postcard::to_slice(&owned, &mut b2).unwrap().len();
         assert!(w1 == w2, "SPEC: borrowed and owned schema must serialise to the same number of bytes");
-        let mut i = 0;
-        while i < 64 {
-            if i < w1 {
-                assert!(b1[i] == b2[i], "SPEC: borrowed and owned schema must serialise to identical bytes");
-            }
-            i += 1;
-        }
+        let i: usize = kani::any();
+        kani::assume(i < w1);
+        assert!(b1[i] == b2[i], "SPEC: borrowed and owned schema must serialise to identical bytes");
         let back: O = postcard::from_bytes(&b1[..w1]).unwrap();
         assert!(back == owned, "SPEC: the bytes of the borrowed schema must deserialise to the owned conversion");
         core::mem::forget(back);
@@ -94,7 +90,7 @@ mod verif_c15 {
     ] };
     static NEST: D = D::Option(&D::Seq(&D::Tuple(&[&S_NEW, &D::Map { key: &D::U8, val: &OPT }])));
 
-    macro_rules! h { ($n:ident, $t:expr) => { #[kani::proof] #[kani::unwind(66)] fn $n() { one(&$t); } }; }
+    macro_rules! h { ($n:ident, $t:expr) => { #[kani::proof] #[kani::unwind(12)] fn $n() { one(&$t); } }; }
     h!(k_leaves_a, LEAVES_A);
     h!(k_leaves_b, LEAVES_B);
     h!(k_option, OPT);
